@@ -187,6 +187,7 @@ func runDKGWith[G algebra.PrimeGroupElement[G, S], S algebra.PrimeFieldElement[S
 
 	var viol *harness.Violation
 	var facts []*keyFacts
+	reuse := &pmReuse[G, S]{}
 	for _, set := range shardSets {
 		kf, v := checkShards(kit, spec, set, w, cfg.proto, probes)
 		if v != nil {
@@ -194,6 +195,15 @@ func runDKGWith[G algebra.PrimeGroupElement[G, S], S algebra.PrimeFieldElement[S
 			break
 		}
 		facts = append(facts, kf)
+		for _, id := range spec.ids {
+			if v := reloadPublicMaterial(reuse, set[id], id, cfg.proto, probes); v != nil {
+				viol = v
+				break
+			}
+		}
+		if viol != nil {
+			break
+		}
 		re, v := persistReload(kit, set, spec.ids, w, cfg.diskFault, cfg.proto, probes)
 		if v != nil {
 			viol = v
